@@ -41,7 +41,7 @@ Proof. intros H. apply nth_error_Some. rewrite H. discriminate. Qed.
 
 Definition pc_in (p : hpc) (l : list hpc) : bool :=
   existsb (fun q => match p, q with
-                    | W0, W0 | W1, W1 | W2, W2 | Wwait, Wwait | W3, W3 | W4, W4 | W5, W5 | W6, W6
+                    | W0, W0 | W1, W1 | W2, W2 | Wwait, Wwait | W3, W3 | W4, W4 | W5, W5 | Wadd, Wadd | W6, W6
                     | R0, R0 | Rwait, Rwait | R1, R1 | R2, R2 | R3, R3 | HDone, HDone | G0, G0 | G1, G1 | GDone, GDone | I0, I0 | I1, I1 | IDone, IDone => true
                     | _, _ => false end) l.
 
@@ -51,6 +51,7 @@ Definition resz (t : hthread) : bool := pc_in (hpc_ t) [R1; R2; R3].
 
 Section Proofs.
 Variable hidx : nat -> Z -> nat.
+Variable KU : list Z.
 
 Record HCInv (s : hcstate) : Prop := {
   iv_cur : hcur s < length (lens s);
@@ -105,14 +106,14 @@ Proof. intros I E. apply hcnt_zero_none. rewrite (iv_resz s I), E. reflexivity. 
 Lemma no_holder s : HCInv s -> forall g b, lk s g b = false -> forall j t, nth_error (hths s) j = Some t -> holder g b t = false.
 Proof. intros I g b E. apply hcnt_zero_none. rewrite (iv_lock s I), E. reflexivity. Qed.
 
-Lemma len_of_app s g x ths' lk' st' c' r' sp' hi' fz' : g < length (lens s) ->
-  len_of (mkHcs (lens s ++ [x]) st' lk' c' r' sp' hi' fz' ths') g = len_of s g.
+Lemma len_of_app s g x ths' lk' st' c' r' sp' hi' fz' cn' : g < length (lens s) ->
+  len_of (mkHcs (lens s ++ [x]) st' lk' c' r' sp' hi' fz' cn' ths') g = len_of s g.
 Proof. intros H. unfold len_of. cbn [lens]. apply app_nth1. exact H. Qed.
 
 Ltac thr H Hi := apply nth_upd_cases in H; [destruct H as [[-> ->]|[? H]]|exact Hi].
 
 (* a step that changes only thread i's private fields and bucket locks *)
-Lemma inv_gen s i t t' lk' rz' :
+Lemma inv_gen s i t t' lk' rz' cnt' :
   HCInv s -> nth_error (hths s) i = Some t ->
   (forall g b, b2n (holder g b t') + b2n (lk s g b) = b2n (holder g b t) + b2n (lk' g b)) ->
   b2n (resz t') + b2n (resizing s) = b2n (resz t) + b2n rz' ->
@@ -125,7 +126,7 @@ Lemma inv_gen s i t t' lk' rz' :
   (pc_in (hpc_ t') [R1; R2] = true ->
      hsnap t' = hcur s /\ (hpc_ t' = R2 -> forall b, b < len_of s (hcur s) -> hcop t' b = true) /\ 1 <= hnlen t' /\
      forall k, hnt t' k = if hcop t' (bidx_of hidx s (hsnap t') k) then stores s (hsnap t') k else None) ->
-  HCInv (mkHcs (lens s) (stores s) lk' (hcur s) rz' (spec s) (hist s) (froz s) (upd_nth i t' (hths s))).
+  HCInv (mkHcs (lens s) (stores s) lk' (hcur s) rz' (spec s) (hist s) (froz s) cnt' (upd_nth i t' (hths s))).
 Proof.
   intros I Hi Hh Hr Hbi Hw4 Hadm1 Hadm2 Hrs. pose proof (nth_error_lt _ _ _ Hi) as Hlt.
   constructor; cbn [lens stores lk hcur resizing spec hths].
@@ -158,7 +159,7 @@ Lemma inv_lk s i t t' lk' :
   (pc_in (hpc_ t') [R1; R2] = true ->
      hsnap t' = hcur s /\ (hpc_ t' = R2 -> forall b, b < len_of s (hcur s) -> hcop t' b = true) /\ 1 <= hnlen t' /\
      forall k, hnt t' k = if hcop t' (bidx_of hidx s (hsnap t') k) then stores s (hsnap t') k else None) ->
-  HCInv (mkHcs (lens s) (stores s) lk' (hcur s) (resizing s) (spec s) (hist s) (froz s) (upd_nth i t' (hths s))).
+  HCInv (mkHcs (lens s) (stores s) lk' (hcur s) (resizing s) (spec s) (hist s) (froz s) (cnt s) (upd_nth i t' (hths s))).
 Proof.
   intros I Hi Hh Hr. apply (inv_gen s i t); try assumption. rewrite Hr. lia.
 Qed.
@@ -184,7 +185,7 @@ Qed.
 Ltac pcd := try (intros; discriminate).
 
 (* ---- the writer's steps ---- *)
-Lemma step_W0 s i t o : HCInv s -> nth_error (hths s) i = Some t -> hpc_ t = W0 -> HCInv (hstep hidx s i o).
+Lemma step_W0 s i t o : HCInv s -> nth_error (hths s) i = Some t -> hpc_ t = W0 -> HCInv (hstep hidx KU s i o).
 Proof.
   intros I Hi Hp. unfold hstep. rewrite Hi, Hp.
   apply (inv_local s i t); try assumption; cbn [hpc_ hsnap hbi hkey pc_in existsb orb]; pcd.
@@ -193,7 +194,7 @@ Proof.
   - intros _. split; [reflexivity|apply (iv_cur s I)].
 Qed.
 
-Lemma step_W1 s i t o : HCInv s -> nth_error (hths s) i = Some t -> hpc_ t = W1 -> HCInv (hstep hidx s i o).
+Lemma step_W1 s i t o : HCInv s -> nth_error (hths s) i = Some t -> hpc_ t = W1 -> HCInv (hstep hidx KU s i o).
 Proof.
   intros I Hi Hp. unfold hstep. rewrite Hi, Hp. destruct (lk s (hsnap t) (hbi t)) eqn:E; [exact I|].
   apply (inv_lk s i t); try assumption; cbn [set_pc hpc_ hsnap hbi hkey hcop hnt hnlen pc_in existsb orb]; pcd.
@@ -221,7 +222,7 @@ Ltac unlock_tac I Hi Hp t :=
   destruct (Nat.eqb_spec b (hbi t)) as [->|]; cbn [andb]; [|lia];
   rewrite (holder_locked _ _ t I Hi) by (rewrite Hp; reflexivity); cbn; lia.
 
-Lemma step_W2 s i t o : HCInv s -> nth_error (hths s) i = Some t -> hpc_ t = W2 -> HCInv (hstep hidx s i o).
+Lemma step_W2 s i t o : HCInv s -> nth_error (hths s) i = Some t -> hpc_ t = W2 -> HCInv (hstep hidx KU s i o).
 Proof.
   intros I Hi Hp. unfold hstep. rewrite Hi, Hp. destruct (resizing s) eqn:E.
   - rewrite <- E. apply (inv_lk s i t); try assumption; cbn [set_pc hpc_ hsnap hbi hkey hcop hnt hnlen pc_in existsb orb]; pcd.
@@ -235,7 +236,7 @@ Proof.
       destruct (hpc_ r); discriminate.
 Qed.
 
-Lemma step_Wwait s i t o : HCInv s -> nth_error (hths s) i = Some t -> hpc_ t = Wwait -> HCInv (hstep hidx s i o).
+Lemma step_Wwait s i t o : HCInv s -> nth_error (hths s) i = Some t -> hpc_ t = Wwait -> HCInv (hstep hidx KU s i o).
 Proof.
   intros I Hi Hp. unfold hstep. rewrite Hi, Hp. destruct (resizing s) eqn:E; [exact I|].
   apply (inv_local s i t); try assumption; cbn [set_pc hpc_ hsnap hbi hkey hcop hnt hnlen pc_in existsb orb]; pcd.
@@ -243,7 +244,7 @@ Proof.
   - unfold resz. cbn [set_pc hpc_]. rewrite Hp. reflexivity.
 Qed.
 
-Lemma step_W3 s i t o : HCInv s -> nth_error (hths s) i = Some t -> hpc_ t = W3 -> HCInv (hstep hidx s i o).
+Lemma step_W3 s i t o : HCInv s -> nth_error (hths s) i = Some t -> hpc_ t = W3 -> HCInv (hstep hidx KU s i o).
 Proof.
   intros I Hi Hp. unfold hstep. rewrite Hi, Hp. destruct (Nat.eqb_spec (hcur s) (hsnap t)) as [E|E].
   - apply (inv_local s i t); try assumption; cbn [set_pc hpc_ hsnap hbi hkey hcop hnt hnlen pc_in existsb orb]; pcd.
@@ -257,7 +258,7 @@ Proof.
     + unfold resz. cbn [set_pc hpc_]. rewrite Hp. reflexivity.
 Qed.
 
-Lemma step_W5 s i t o : HCInv s -> nth_error (hths s) i = Some t -> hpc_ t = W5 -> HCInv (hstep hidx s i o).
+Lemma step_W5 s i t o : HCInv s -> nth_error (hths s) i = Some t -> hpc_ t = W5 -> HCInv (hstep hidx KU s i o).
 Proof.
   intros I Hi Hp. unfold hstep. rewrite Hi, Hp.
   apply (inv_lk s i t); try assumption; cbn [set_pc hpc_ hsnap hbi hkey hcop hnt hnlen pc_in existsb orb]; pcd.
@@ -265,7 +266,15 @@ Proof.
   - unfold resz. cbn [set_pc hpc_]. rewrite Hp. reflexivity.
 Qed.
 
-Lemma step_W6 s i t o : HCInv s -> nth_error (hths s) i = Some t -> hpc_ t = W6 -> HCInv (hstep hidx s i o).
+Lemma step_Wadd s i t o : HCInv s -> nth_error (hths s) i = Some t -> hpc_ t = Wadd -> HCInv (hstep hidx KU s i o).
+Proof.
+  intros I Hi Hp. unfold hstep. rewrite Hi, Hp.
+  apply (inv_gen s i t); try assumption; cbn [set_pc hpc_ hsnap hbi hkey hcop hnt hnlen pc_in existsb orb]; pcd.
+  - intros g b. unfold holder. cbn [set_pc hpc_ hsnap hbi]. rewrite Hp. cbn. lia.
+  - unfold resz. cbn [set_pc hpc_]. rewrite Hp. cbn. lia.
+Qed.
+
+Lemma step_W6 s i t o : HCInv s -> nth_error (hths s) i = Some t -> hpc_ t = W6 -> HCInv (hstep hidx KU s i o).
 Proof.
   intros I Hi Hp. unfold hstep. rewrite Hi, Hp.
   destruct o as [|[|o]];
@@ -284,7 +293,7 @@ Proof. unfold ret_pc. cbn [hpc_]. destruct (hretry t); [left|right]; reflexivity
 Ltac ret_pcd t := intros; exfalso; destruct (ret_pc_cases t) as [Erp|Erp];
   match goal with H : context [hpc_ (ret_pc t)] |- _ => rewrite Erp in H; discriminate H end.
 
-Lemma step_Rwait s i t o : HCInv s -> nth_error (hths s) i = Some t -> hpc_ t = Rwait -> HCInv (hstep hidx s i o).
+Lemma step_Rwait s i t o : HCInv s -> nth_error (hths s) i = Some t -> hpc_ t = Rwait -> HCInv (hstep hidx KU s i o).
 Proof.
   intros I Hi Hp. unfold hstep. rewrite Hi, Hp. destruct (resizing s) eqn:E; [exact I|].
   apply (inv_local s i t); try assumption; try (ret_pcd t).
@@ -292,7 +301,7 @@ Proof.
   - rewrite ret_pc_resz. unfold resz. rewrite Hp. reflexivity.
 Qed.
 
-Lemma step_R1 s i t o : HCInv s -> nth_error (hths s) i = Some t -> hpc_ t = R1 -> HCInv (hstep hidx s i o).
+Lemma step_R1 s i t o : HCInv s -> nth_error (hths s) i = Some t -> hpc_ t = R1 -> HCInv (hstep hidx KU s i o).
 Proof.
   intros I Hi Hp. unfold hstep. rewrite Hi, Hp.
   assert (Hpr : pc_in (hpc_ t) [R1; R2] = true) by (rewrite Hp; reflexivity).
@@ -319,7 +328,7 @@ Proof.
       intros k. rewrite Hnt. destruct (Nat.eqb (bidx_of hidx s (hsnap t) k) o); reflexivity.
 Qed.
 
-Lemma step_R0 s i t o : HCInv s -> nth_error (hths s) i = Some t -> hpc_ t = R0 -> HCInv (hstep hidx s i o).
+Lemma step_R0 s i t o : HCInv s -> nth_error (hths s) i = Some t -> hpc_ t = R0 -> HCInv (hstep hidx KU s i o).
 Proof.
   intros I Hi Hp. unfold hstep. rewrite Hi, Hp. destruct (resizing s) eqn:E.
   - apply (inv_local s i t); try assumption; cbn [set_pc hpc_ hsnap hbi hkey hcop hnt hnlen pc_in existsb orb]; pcd.
@@ -338,7 +347,7 @@ Proof.
       * unfold resz. cbn [set_pc hpc_]. rewrite Hp, E. cbn. lia.
 Qed.
 
-Lemma step_R3 s i t o : HCInv s -> nth_error (hths s) i = Some t -> hpc_ t = R3 -> HCInv (hstep hidx s i o).
+Lemma step_R3 s i t o : HCInv s -> nth_error (hths s) i = Some t -> hpc_ t = R3 -> HCInv (hstep hidx KU s i o).
 Proof.
   intros I Hi Hp. unfold hstep. rewrite Hi, Hp.
   assert (Hr : resz t = true) by (unfold resz; rewrite Hp; reflexivity).
@@ -352,7 +361,7 @@ Qed.
 Lemma bidx_of_ext s' s g k : lens s' = lens s -> bidx_of hidx s' g k = bidx_of hidx s g k.
 Proof. intros H. unfold bidx_of, len_of. rewrite H. reflexivity. Qed.
 
-Lemma step_W4 s i t o : HCInv s -> nth_error (hths s) i = Some t -> hpc_ t = W4 -> HCInv (hstep hidx s i o).
+Lemma step_W4 s i t o : HCInv s -> nth_error (hths s) i = Some t -> hpc_ t = W4 -> HCInv (hstep hidx KU s i o).
 Proof.
   intros I Hi Hp. unfold hstep. rewrite Hi, Hp. pose proof (nth_error_lt _ _ _ Hi) as Hlt.
   destruct o as [|o].
@@ -384,13 +393,13 @@ Proof.
     assert (Hge : hcop r (hbi t) = false) by (apply (iv_adm s I i t jr r Hi Hjr); [rewrite Hp; reflexivity|exact Hsn|exact Hpr]).
     rewrite Hb, Hsn in Hge.
     match goal with |- context [bidx_of hidx ?s' _ _] =>
-      lazymatch s' with mkHcs _ _ _ _ _ _ _ _ _ => rewrite (bidx_of_ext s' s) by reflexivity end end.
+      lazymatch s' with mkHcs _ _ _ _ _ _ _ _ _ _ => rewrite (bidx_of_ext s' s) by reflexivity end end.
     rewrite Hge. reflexivity.
   - intros k. unfold upd_store. rewrite Hsn, Nat.eqb_refl. unfold upd_fun.
     destruct (Z.eqb k (hkey t)); rewrite (iv_spec s I); reflexivity.
 Qed.
 
-Lemma step_R2 s i t o : HCInv s -> nth_error (hths s) i = Some t -> hpc_ t = R2 -> HCInv (hstep hidx s i o).
+Lemma step_R2 s i t o : HCInv s -> nth_error (hths s) i = Some t -> hpc_ t = R2 -> HCInv (hstep hidx KU s i o).
 Proof.
   intros I Hi Hp. unfold hstep. rewrite Hi, Hp. pose proof (nth_error_lt _ _ _ Hi) as Hlt.
   assert (Hpr : pc_in (hpc_ t) [R1; R2] = true) by (rewrite Hp; reflexivity).
@@ -426,14 +435,14 @@ Proof.
     pose proof (bidx_lt s (hcur s) k (iv_len s I)) as Hl. rewrite (Hfull _ Hl). apply (iv_spec s I).
 Qed.
 
-Lemma step_G0 s i t o : HCInv s -> nth_error (hths s) i = Some t -> hpc_ t = G0 -> HCInv (hstep hidx s i o).
+Lemma step_G0 s i t o : HCInv s -> nth_error (hths s) i = Some t -> hpc_ t = G0 -> HCInv (hstep hidx KU s i o).
 Proof.
   intros I Hi Hp. unfold hstep. rewrite Hi, Hp.
   apply (inv_local s i t); try assumption; cbn [hpc_ hsnap hbi hkey pc_in existsb orb]; pcd.
   - intros g b. unfold holder. cbn [hpc_]. rewrite Hp. reflexivity.
   - unfold resz. cbn [hpc_]. rewrite Hp. reflexivity.
 Qed.
-Lemma step_G1 s i t o : HCInv s -> nth_error (hths s) i = Some t -> hpc_ t = G1 -> HCInv (hstep hidx s i o).
+Lemma step_G1 s i t o : HCInv s -> nth_error (hths s) i = Some t -> hpc_ t = G1 -> HCInv (hstep hidx KU s i o).
 Proof.
   intros I Hi Hp. unfold hstep. rewrite Hi, Hp.
   apply (inv_local s i t); try assumption; cbn [hpc_ hsnap hbi hkey pc_in existsb orb]; pcd.
@@ -441,14 +450,14 @@ Proof.
   - unfold resz. cbn [hpc_]. rewrite Hp. reflexivity.
 Qed.
 
-Lemma step_I0 s i t o : HCInv s -> nth_error (hths s) i = Some t -> hpc_ t = I0 -> HCInv (hstep hidx s i o).
+Lemma step_I0 s i t o : HCInv s -> nth_error (hths s) i = Some t -> hpc_ t = I0 -> HCInv (hstep hidx KU s i o).
 Proof.
   intros I Hi Hp. unfold hstep. rewrite Hi, Hp.
   apply (inv_local s i t); try assumption; cbn [hpc_ hsnap hbi hkey pc_in existsb orb]; pcd.
   - intros g b. unfold holder. cbn [hpc_]. rewrite Hp. reflexivity.
   - unfold resz. cbn [hpc_]. rewrite Hp. reflexivity.
 Qed.
-Lemma step_I1 s i t o : HCInv s -> nth_error (hths s) i = Some t -> hpc_ t = I1 -> HCInv (hstep hidx s i o).
+Lemma step_I1 s i t o : HCInv s -> nth_error (hths s) i = Some t -> hpc_ t = I1 -> HCInv (hstep hidx KU s i o).
 Proof.
   intros I Hi Hp. unfold hstep. rewrite Hi, Hp.
   destruct (Nat.ltb (hbi t) (len_of s (hsnap t))); [destruct (lk s (hsnap t) (hbi t)); [exact I|]|];
@@ -457,7 +466,7 @@ Proof.
    |unfold resz; cbn [set_pc hpc_]; rewrite Hp; reflexivity]).
 Qed.
 
-Theorem HCInv_step s i o : HCInv s -> HCInv (hstep hidx s i o).
+Theorem HCInv_step s i o : HCInv s -> HCInv (hstep hidx KU s i o).
 Proof.
   intros I. destruct (nth_error (hths s) i) as [t|] eqn:Hi; [|unfold hstep; rewrite Hi; exact I].
   destruct (hpc_ t) eqn:Hp.
@@ -468,6 +477,7 @@ Proof.
   - eapply step_W3; eassumption.
   - eapply step_W4; eassumption.
   - eapply step_W5; eassumption.
+  - eapply step_Wadd; eassumption.
   - eapply step_W6; eassumption.
   - eapply step_R0; eassumption.
   - eapply step_Rwait; eassumption.
@@ -483,7 +493,7 @@ Proof.
   - unfold hstep. rewrite Hi, Hp. exact I.
 Qed.
 
-Lemma HCInv_run sched : forall s, HCInv s -> HCInv (hrun hidx s sched).
+Lemma HCInv_run sched : forall s, HCInv s -> HCInv (hrun hidx KU s sched).
 Proof.
   induction sched as [|e sched IH]; intros s I; [exact I|]. cbn [hrun fold_left]. apply IH. apply HCInv_step. exact I.
 Qed.
@@ -519,7 +529,7 @@ Definition dflt : Z -> option Z := fun _ => None.
 (* a thread has applied its function: past its update step; while resizing: unless it asked for the
    resize before its update *)
 Definition applied (t : hthread) : bool :=
-  pc_in (hpc_ t) [W5; W6; HDone] || (pc_in (hpc_ t) [R0; Rwait; R1; R2; R3] && negb (hretry t)).
+  pc_in (hpc_ t) [W5; Wadd; W6; HDone] || (pc_in (hpc_ t) [R0; Rwait; R1; R2; R3] && negb (hretry t)).
 
 (* an iteration in progress: the buckets below [hbi] have been read; every key of those buckets was
    yielded with the binding it had in the abstract map at index [hwitf k], not older than the iteration *)
@@ -581,7 +591,7 @@ Ltac frame_ret s i t R Hi Hp :=
     |rewrite ret_pc_applied by (rewrite Hp; reflexivity); apply (r_app s R i t Hi)
     |intros Hq; exfalso; destruct (ret_pc_cases t) as [Erp|Erp]; rewrite Erp in Hq; discriminate Hq].
 
-Theorem HRInv_step s i o : HCInv s -> HRInv s -> HRInv (hstep hidx s i o).
+Theorem HRInv_step s i o : HCInv s -> HRInv s -> HRInv (hstep hidx KU s i o).
 Proof.
   intros I R. destruct (nth_error (hths s) i) as [t|] eqn:Hi; [|unfold hstep; rewrite Hi; exact R].
   pose proof (nth_error_lt _ _ _ Hi) as Hlt.
@@ -614,6 +624,7 @@ Proof.
       rewrite app_length. split; [lia|]. split; [exact H2|]. split; [exact H3|]. split; [exact H4|].
       intros k Hk. destruct (H5 k Hk) as [Hw Hv]. split; [lia|]. rewrite app_nth1 by lia. exact Hv.
   - (* W5 *) frame_tac s i t R Hi Hp.
+  - (* Wadd *) frame_tac s i t R Hi Hp.
   - (* W6 *) destruct o as [|o]; frame_tac s i t R Hi Hp.
   - (* R0 *) destruct (resizing s); [frame_tac s i t R Hi Hp|destruct o as [|o]; [cbv zeta|]; frame_tac s i t R Hi Hp].
   - (* Rwait *) destruct (resizing s); [exact R|frame_ret s i t R Hi Hp].
@@ -705,7 +716,7 @@ Proof.
   - intros j t Hj Hp. destruct (Hall j t Hj) as [E _]. destruct (hpc_ t); discriminate.
 Qed.
 
-Lemma both_run sched : forall s, HCInv s -> HRInv s -> HCInv (hrun hidx s sched) /\ HRInv (hrun hidx s sched).
+Lemma both_run sched : forall s, HCInv s -> HRInv s -> HCInv (hrun hidx KU s sched) /\ HRInv (hrun hidx KU s sched).
 Proof.
   induction sched as [|e sched IH]; intros s I R; [split; assumption|]. cbn [hrun fold_left].
   apply IH; [apply HCInv_step; exact I|apply HRInv_step; assumption].
@@ -716,16 +727,16 @@ Qed.
 (* [spec] is only ever changed by the W4 step, to [upd spec k (f (spec k))] (by definition of hstep), and
    [hist] lists its successive values.  The theorem: the published table IS that map, at every moment. *)
 Theorem conc_table_is_spec n0 ops sched : 1 <= n0 ->
-  let s := hrun hidx (hinit n0 ops) sched in forall k, stores s (hcur s) k = spec s k.
+  let s := hrun hidx KU (hinit n0 ops) sched in forall k, stores s (hcur s) k = spec s k.
 Proof. intros Hn s k. apply (iv_spec s). apply HCInv_run. apply HCInv_init. exact Hn. Qed.
 
 (* at most one thread holds a given bucket lock, at most one is resizing *)
 Theorem conc_bucket_mutex n0 ops sched g b : 1 <= n0 ->
-  hcnt (holder g b) (hths (hrun hidx (hinit n0 ops) sched)) <= 1.
+  hcnt (holder g b) (hths (hrun hidx KU (hinit n0 ops) sched)) <= 1.
 Proof.
   intros Hn. rewrite (iv_lock _ (HCInv_run sched _ (HCInv_init n0 ops Hn))). apply b2n_le1.
 Qed.
-Theorem conc_resize_mutex n0 ops sched : 1 <= n0 -> hcnt resz (hths (hrun hidx (hinit n0 ops) sched)) <= 1.
+Theorem conc_resize_mutex n0 ops sched : 1 <= n0 -> hcnt resz (hths (hrun hidx KU (hinit n0 ops) sched)) <= 1.
 Proof.
   intros Hn. rewrite (iv_resz _ (HCInv_run sched _ (HCInv_init n0 ops Hn))). apply b2n_le1.
 Qed.
@@ -734,7 +745,7 @@ Qed.
    binding it is about to read there is the abstract map's: the function sees the value every earlier
    update left, and its result is installed in the same step (atomic per call) *)
 Theorem conc_update_sees_current n0 ops sched j t : 1 <= n0 ->
-  let s := hrun hidx (hinit n0 ops) sched in
+  let s := hrun hidx KU (hinit n0 ops) sched in
   nth_error (hths s) j = Some t -> hpc_ t = W4 ->
   hsnap t = hcur s /\ stores s (hsnap t) (hkey t) = spec s (hkey t) /\ lk s (hsnap t) (hbi t) = true.
 Proof.
@@ -746,7 +757,7 @@ Qed.
 (* every writer has applied its function exactly once when it is past its update step, and not at all
    before: never twice, whatever retries the resizes forced *)
 Theorem conc_applied_exactly_once n0 ops sched j t : 1 <= n0 ->
-  nth_error (hths (hrun hidx (hinit n0 ops) sched)) j = Some t -> happ t = b2n (applied t).
+  nth_error (hths (hrun hidx KU (hinit n0 ops) sched)) j = Some t -> happ t = b2n (applied t).
 Proof.
   intros Hn. destruct (both_run sched _ (HCInv_init n0 ops Hn) (HRInv_init n0 ops)) as [_ R]. apply (r_app _ R).
 Qed.
@@ -755,7 +766,7 @@ Qed.
    between the read's start (its table load) and its end: index [hwit] of the history, not older than
    the map that was current when the read began *)
 Theorem conc_read_regular n0 ops sched j t : 1 <= n0 ->
-  let s := hrun hidx (hinit n0 ops) sched in
+  let s := hrun hidx KU (hinit n0 ops) sched in
   nth_error (hths s) j = Some t -> hpc_ t = GDone ->
   hst t - 1 <= hwit t < length (hist s) /\ nth (hwit t) (hist s) dflt (hkey t) = hres t.
 Proof.
@@ -764,7 +775,7 @@ Qed.
 
 (* in particular: with no update in flight during the read, it returns the current binding *)
 Corollary conc_read_quiescent n0 ops sched j t : 1 <= n0 ->
-  let s := hrun hidx (hinit n0 ops) sched in
+  let s := hrun hidx KU (hinit n0 ops) sched in
   nth_error (hths s) j = Some t -> hpc_ t = GDone -> hst t = length (hist s) -> hres t = spec s (hkey t).
 Proof.
   intros Hn s Hj Hp Hst. destruct (conc_read_regular n0 ops sched j t Hn Hj Hp) as [Hw Hv]. fold s in Hw, Hv.
@@ -775,7 +786,7 @@ Qed.
 (* a finished iteration: every key was yielded (or not) as it was bound (or not) in the abstract map at
    some moment between the iteration's table load and its end *)
 Theorem conc_iter_sound n0 ops sched j t : 1 <= n0 ->
-  let s := hrun hidx (hinit n0 ops) sched in
+  let s := hrun hidx KU (hinit n0 ops) sched in
   nth_error (hths s) j = Some t -> hpc_ t = IDone ->
   forall k, hst t - 1 <= hwitf t k < length (hist s) /\ nth (hwitf t k) (hist s) dflt k = hyield t k.
 Proof.
@@ -787,7 +798,7 @@ Qed.
 
 (* ... so a key present during the whole iteration is yielded, with a binding it had meanwhile *)
 Corollary conc_iter_complete n0 ops sched j t k : 1 <= n0 ->
-  let s := hrun hidx (hinit n0 ops) sched in
+  let s := hrun hidx KU (hinit n0 ops) sched in
   nth_error (hths s) j = Some t -> hpc_ t = IDone ->
   (forall w, hst t - 1 <= w < length (hist s) -> nth w (hist s) dflt k <> None) -> hyield t k <> None.
 Proof.
@@ -797,7 +808,7 @@ Qed.
 
 (* ... and a key absent during the whole iteration (removed before it began, not re-inserted) is not *)
 Corollary conc_iter_no_ghost n0 ops sched j t k : 1 <= n0 ->
-  let s := hrun hidx (hinit n0 ops) sched in
+  let s := hrun hidx KU (hinit n0 ops) sched in
   nth_error (hths s) j = Some t -> hpc_ t = IDone ->
   (forall w, hst t - 1 <= w < length (hist s) -> nth w (hist s) dflt k = None) -> hyield t k = None.
 Proof.
